@@ -524,6 +524,34 @@ pub fn pool(seed: u64) -> Vec<DistSpec> {
         v.push(DistSpec::f(Family::Exp, s, &[0.0]));
         v.push(DistSpec::f(Family::Gamma, s, &[2.0, f64::INFINITY]));
     }
+    // special-value variants: every float parameter of the first grid point of each
+    // family replaced in turn by floats that tolerance-based or "is default" shortcuts
+    // get wrong (tiny non-zero, neighbours of 1, subnormal, negative tiny)
+    {
+        let mut extra = Vec::new();
+        for s in [Scalar::F32, Scalar::F64] {
+            let (eps, tiny, sub) = if s == Scalar::F32 {
+                (f32::EPSILON as f64, 1e-20, f32::from_bits(1) as f64)
+            } else {
+                (f64::EPSILON, 1e-300, f64::from_bits(1))
+            };
+            let specials = [tiny, -tiny, sub, 1.0 - eps / 2.0, 1.0 - eps, 1.0 + eps, eps, -eps, 0.0, -0.0, 1.0];
+            for fam in env::CONT_FAMILIES.iter().chain(env::DISC_FLOAT_FAMILIES.iter()) {
+                let grid = if env::CONT_FAMILIES.contains(fam) { env::cont_grid(*fam, s) } else { env::disc_grid(*fam, s) };
+                let Some(base) = grid.first() else { continue };
+                for i in 0..base.p.len() {
+                    for &x in &specials {
+                        let mut c = base.clone();
+                        c.p[i] = x;
+                        if c != *base && build_caught(&c).is_ok() {
+                            extra.push(c);
+                        }
+                    }
+                }
+            }
+        }
+        v.extend(extra);
+    }
     // keep constructors cheap: drop HIN set-ups that take long and vectors above 100 entries
     v.retain(|s| match s.family {
         Family::Hypergeometric => s.n[0] <= 1 << 40 && build_caught(s).is_ok(),
